@@ -317,7 +317,36 @@ type pinCase struct {
 	Name string `json:"name"`
 }
 
+// runPins checks the order pins and witnesses, then lets the process reject
+// a few configurations (misspelt directive, bad argument, unbalanced brace:
+// what a refused reload or a -validate run does) and checks them again: the
+// documented order must not depend on what the process has parsed before.
 func runPins() error {
+	if err := runPinsOnce(); err != nil {
+		return err
+	}
+	for _, bad := range []string{
+		"http://localhost:0 {\n\tbasicaut /x u p\n}\n",
+		"http://localhost:0 {\n\tgzip\n\tzzz_last_directive\n\taaa_first_directive\n}\n",
+		"http://localhost:0 {\n\tstatus abc /x\n}\n",
+		"http://localhost:0 {\n\tgzip {\n",
+	} {
+		in := casket.CasketfileInput{Contents: []byte(bad), Filepath: "Casketfile", ServerTypeName: "http"}
+		if err := casket.ValidateAndExecuteDirectives(in, nil, true); err == nil {
+			return fmt.Errorf("HARNESS: a configuration meant to be rejected was accepted: %q", bad)
+		}
+		if inst, err := casket.Start(in); err == nil {
+			srv.Stop(inst)
+			return fmt.Errorf("HARNESS: a configuration meant to be rejected started: %q", bad)
+		}
+	}
+	if err := runPinsOnce(); err != nil {
+		return fmt.Errorf("after the process had rejected some configurations: %v", err)
+	}
+	return nil
+}
+
+func runPinsOnce() error {
 	setup()
 	pos := map[string]int{}
 	for i, d := range casket.ValidDirectives("http") {
